@@ -151,6 +151,17 @@ fn check(args: &[String]) -> i32 {
         exit = 1;
         reported += 1;
     }
+    for (run, what) in &rep.aborted {
+        let s = props::generate(&prop, seed, *run, thorough);
+        let rf = ReplayFile { property: prop.clone(), class: "process-abort".into(), detail: what.clone(), seed, run: *run, unminimised_size: s.facts.size(), minimised_size: s.facts.size(), minimiser_executions: 0, trace: vec![], scenario: s };
+        let _ = std::fs::create_dir_all(format!("{}/replays", orchestrate::out_dir()));
+        let path = format!("{}/replays/{prop}-{seed}-{run}-process-abort.json", orchestrate::out_dir());
+        let _ = std::fs::write(&path, serde_json::to_string_pretty(&rf).unwrap());
+        println!("VIOLATION property={prop} replay={path}");
+        println!("  class=process-abort run={run} (not minimised: the failure kills the process) {what}");
+        exit = 1;
+        reported += 1;
+    }
     let kf = known::load();
     for found in rep.violations.iter().take(10) {
         match make_replay(&prop, seed, found, thorough) {
@@ -276,6 +287,36 @@ fn replay(path: &str) -> i32 {
             return 2;
         }
     };
+    if (rf.class == "process-abort" || rf.class == "hang") && std::env::var("HPOSIM_REPLAY_CHILD").is_err() {
+        // these failures take the process down (or never return): replay in a child process and watch it
+        let exe = std::env::current_exe().expect("own path");
+        let mut child = std::process::Command::new(exe).arg("replay").arg(path).env("HPOSIM_REPLAY_CHILD", "1").stdout(std::process::Stdio::null()).stderr(std::process::Stdio::null()).spawn().expect("spawn");
+        let t0 = Instant::now();
+        loop {
+            match child.try_wait() {
+                Ok(Some(st)) => {
+                    use std::os::unix::process::ExitStatusExt;
+                    if let Some(sig) = st.signal() {
+                        println!("VIOLATION property={} replay={path}", rf.property);
+                        println!("  class=process-abort: the replaying process died with signal {sig}");
+                        return 1;
+                    }
+                    println!("not reproduced: the recorded {} does not occur on this tree (child exit {:?})", rf.class, st.code());
+                    return 0;
+                }
+                Ok(None) => {
+                    if t0.elapsed().as_secs() > orchestrate::HANG_LIMIT_S {
+                        let _ = child.kill();
+                        println!("VIOLATION property={} replay={path}", rf.property);
+                        println!("  class=hang: no progress within {} s", orchestrate::HANG_LIMIT_S);
+                        return 1;
+                    }
+                    std::thread::sleep(std::time::Duration::from_millis(50));
+                }
+                Err(_) => return 2,
+            }
+        }
+    }
     let mut ctx = replica::Ctx::new(true);
     let out = match obs::guarded(|| props::execute(&mut ctx, &rf.scenario)) {
         Ok(o) => o,
